@@ -492,11 +492,13 @@ pub fn run(ctx: &Ctx) {
     run_a(ctx);
     *ctx.exhaustive.lock().unwrap() = Some(true);
     run_b(ctx);
+    run_c(ctx);
+    run_d(ctx);
     ctx.assume("part B: standard signals coalesce while pending; a delivery is a raise_signal on the shell's virtual process from outside (as the kernel would), between scheduler steps and at preemption points");
     ctx.assume("merge model: disposition = max(internal need, user action) with default < ignore < catch; subshell entry and the ignored-on-entry lock as in POSIX 2.12 and the doc comments of trap.rs");
 }
 
-pub const RULE: &str = "Part B: generated scripts whose main-shell commands are all probes (plus if/for/case/groups/functions/subshells/substitutions/pipelines/and-or), with `trap 'probe T; (probe X); probe T2' USR1`; SIGUSR1 is delivered to the shell process from outside at every scheduler step of the FIFO run (one delivery per run), at random pairs of steps, and randomly (3-60% per step) under random preempting schedules; an event-log checker verifies: one trap run per delivery window (pending deliveries coalesce), no run without delivery, the action starts with the $? of the last command, is not re-entered, leaves $? and the control flow of the script unchanged, and runs before a second main-shell command completes. Part A: breadth-first enumeration (de-duplicated on the model state) of all TrapSet histories over {set_action on CHLD/INT/TSTP/USR1 (default, ignore, command; with and without override), set_action on KILL and STOP, EXIT trap, enable/disable each internal disposition group, enter_subshell with each (ignore_sigint_sigquit, keep_stoppers) pair} x 4 sets of signals ignored on entry, each history re-executed on a fresh Rc<Concurrent<VirtualSystem>>; after every operation the disposition held by the virtual kernel for 10 signals and the listed trap action are compared with the merge model, and the result of set_action with the documented outcome. evaluations = histories executed; distinct_nontrivial = distinct model states reached";
+pub const RULE: &str = "Part C: non-interactive shell started with each subset of {INT, USR1, TERM} ignored; every `trap ACTION COND...` command with ACTION in {command, '', -} and every ordered list of 1-3 of those conditions (+ random pairs of such commands), then the signal is sent to the shell: it must run the trap, be ignored, or kill the shell as the model says, and `trap` must return 0. Part D: run_blocking / run_unblocking / tcsetpgrp_with_block / tcsetpgrp_without_block on a VirtualSystem with the wrapped operation succeeding or failing x 3 initial dispositions x blocked or not: disposition and mask held by the virtual kernel must be what they were. Part B: generated scripts whose main-shell commands are all probes (plus if/for/case/groups/functions/subshells/substitutions/pipelines/and-or), with `trap 'probe T; (probe X); probe T2' USR1`; SIGUSR1 is delivered to the shell process from outside at every scheduler step of the FIFO run (one delivery per run), at random pairs of steps, and randomly (3-60% per step) under random preempting schedules; an event-log checker verifies: one trap run per delivery window (pending deliveries coalesce), no run without delivery, the action starts with the $? of the last command, is not re-entered, leaves $? and the control flow of the script unchanged, and runs before a second main-shell command completes. Part A: breadth-first enumeration (de-duplicated on the model state) of all TrapSet histories over {set_action on CHLD/INT/TSTP/USR1 (default, ignore, command; with and without override), set_action on KILL and STOP, EXIT trap, enable/disable each internal disposition group, enter_subshell with each (ignore_sigint_sigquit, keep_stoppers) pair} x 4 sets of signals ignored on entry, each history re-executed on a fresh Rc<Concurrent<VirtualSystem>>; after every operation the disposition held by the virtual kernel for 10 signals and the listed trap action are compared with the merge model, and the result of set_action with the documented outcome. evaluations = histories executed; distinct_nontrivial = distinct model states reached";
 
 // =================================================================== part B
 
@@ -835,4 +837,201 @@ pub fn run_b(ctx: &Ctx) {
         },
     );
     ctx.count("B_scripts", nscripts as i64);
+}
+
+// =================================================================== part C
+//
+// The `trap` built-in with several conditions in one command, in a non-interactive shell started
+// with some signals already ignored. Model (XCU 2.12 / trap): a signal ignored on entry can be
+// neither trapped nor reset and `trap` reports no error for it; every other condition named in the
+// command gets the action. Observation is behavioural: the signal is then sent to the shell.
+
+const C_SIGS: [(&str, Number); 3] = [("INT", SIGINT), ("USR1", SIGUSR1), ("TERM", SIGTERM)];
+
+#[derive(Clone, Copy, PartialEq, Debug)]
+enum CAct {
+    Cmd,
+    Ignore,
+    Reset,
+}
+
+fn run_c_case(ctx: &Ctx, ignored: u8, cmds: &[(CAct, Vec<usize>)], tested: usize) {
+    let mut script = String::new();
+    // model: None = default
+    let mut state: [Option<CAct>; 3] = [None; 3];
+    for (act, conds) in cmds {
+        let names: Vec<&str> = conds.iter().map(|c| C_SIGS[*c].0).collect();
+        match act {
+            CAct::Cmd => script.push_str(&format!("trap 'probe trapped' {}\n", names.join(" "))),
+            CAct::Ignore => script.push_str(&format!("trap '' {}\n", names.join(" "))),
+            CAct::Reset => script.push_str(&format!("trap - {}\n", names.join(" "))),
+        }
+        script.push_str("probe status \"$?\"\n");
+        for c in conds {
+            if ignored & (1 << c) == 0 {
+                state[*c] = if *act == CAct::Reset { None } else { Some(*act) };
+            }
+        }
+    }
+    script.push_str(&format!("kill -s {} $$\nprobe survived\n", C_SIGS[tested].0));
+    let mut cfg = vsh::VCfg::script(&script);
+    cfg.extra = vsh::v_probes();
+    cfg.setup = Some(Box::new(move |st| {
+        let p = st.processes.get_mut(&yash_env::job::Pid(2)).unwrap();
+        for (k, (_, num)) in C_SIGS.iter().enumerate() {
+            if ignored & (1 << k) != 0 {
+                p.set_disposition(*num, Disposition::Ignore);
+            }
+        }
+    }));
+    let out = vsh::run_v(cfg);
+    ctx.eval();
+    ctx.count("C_trap_command_scenarios", 1);
+    let got: Vec<String> = out.events.iter().filter(|e| e.kind == "probe").map(|e| e.args.join(" ")).collect();
+    let mut want: Vec<String> = cmds.iter().map(|_| "status 0".to_string()).collect();
+    let outcome = if ignored & (1 << tested) != 0 { Some(CAct::Ignore) } else { state[tested] };
+    match outcome {
+        Some(CAct::Cmd) => {
+            want.push("trapped".into());
+            want.push("survived".into());
+        }
+        Some(CAct::Ignore) => want.push("survived".into()),
+        _ => {}
+    }
+    let died = !matches!(out.status, yash_env::job::ProcessState::Halted(yash_env::job::ProcessResult::Exited(_)));
+    let want_died = outcome.is_none();
+    if got != want || died != want_died {
+        let what = match outcome {
+            Some(CAct::Cmd) => "trap-not-run",
+            Some(CAct::Ignore) => "not-ignored",
+            _ => "not-default",
+        };
+        ctx.violation(
+            format!("C:{what}"),
+            format!(
+                "signals ignored when the shell started: {:?}; signal sent: {}\nscript:\n{script}expected events {want:?} and the shell {}\nobserved events {got:?}, final state {:?}\nstderr:\n{}",
+                C_SIGS.iter().enumerate().filter(|(k, _)| ignored & (1 << k) != 0).map(|(_, s)| s.0).collect::<Vec<_>>(),
+                C_SIGS[tested].0,
+                if want_died { "killed by the signal" } else { "surviving" },
+                out.status,
+                out.err()
+            ),
+        );
+    } else {
+        ctx.nontrivial(crate::util::fnv_str(&format!("C{ignored}{cmds:?}{tested}")));
+    }
+}
+
+pub fn run_c(ctx: &Ctx) {
+    // ordered condition lists of length 1..3 over 3 signals
+    let mut lists: Vec<Vec<usize>> = Vec::new();
+    for a in 0..3 {
+        lists.push(vec![a]);
+        for b in 0..3 {
+            if b != a {
+                lists.push(vec![a, b]);
+                for c in 0..3 {
+                    if c != a && c != b {
+                        lists.push(vec![a, b, c]);
+                    }
+                }
+            }
+        }
+    }
+    let acts = [CAct::Cmd, CAct::Ignore, CAct::Reset];
+    let mut singles: Vec<(CAct, Vec<usize>)> = Vec::new();
+    for a in acts {
+        for l in &lists {
+            singles.push((a, l.clone()));
+        }
+    }
+    let mut cases: Vec<(u8, Vec<(CAct, Vec<usize>)>, usize)> = Vec::new();
+    for ignored in 0..8u8 {
+        for tested in 0..3 {
+            for c in &singles {
+                cases.push((ignored, vec![c.clone()], tested));
+            }
+        }
+    }
+    let mut rng = Rng::new(ctx.seed.wrapping_mul(0xC11C));
+    for _ in 0..(if ctx.quick() { 3000 } else { 60_000 }) {
+        cases.push((rng.below(8) as u8, vec![rng.pick(&singles).clone(), rng.pick(&singles).clone()], rng.below(3) as usize));
+    }
+    let cases = &cases;
+    ctx.par_for(
+        cases.len(),
+        |i| {
+            let (ig, cmds, t) = &cases[i];
+            run_c_case(ctx, *ig, cmds, *t);
+        },
+        |i, msg| ctx.violation(if crate::util::panic_in_repo(&msg) { "C:panic" } else { "harness-panic" }, format!("part C case {i}: {msg}")),
+    );
+}
+
+// =================================================================== part D
+//
+// The helpers that change a disposition and the signal mask around an operation (job/tcsetpgrp.rs)
+// must put both back whether the operation succeeds or fails: the kernel's disposition has to
+// match what the trap set believes afterwards. Fault injection at the API: the wrapped operation
+// fails.
+
+pub fn run_d(ctx: &Ctx) {
+    use yash_env::job::{RunBlocking, RunUnblocking, tcsetpgrp_with_block, tcsetpgrp_without_block};
+    use yash_env::system::{Errno, Sigaction, Sigmask, SigmaskOp, Sigset};
+    let sigs = [("TTOU", SIGTTOU), ("INT", SIGINT), ("USR1", SIGUSR1)];
+    let disps = [Disposition::Default, Disposition::Ignore, Disposition::Catch];
+    for (sname, sig) in sigs {
+        for disp in disps {
+            for blocked in [false, true] {
+                for helper in ["run_blocking", "run_unblocking", "tcsetpgrp_with_block", "tcsetpgrp_without_block"] {
+                    for fail in [false, true] {
+                        if helper.starts_with("tcsetpgrp") && sig != SIGTTOU {
+                            continue;
+                        }
+                        let system = VirtualSystem::new();
+                        let pid = system.process_id;
+                        {
+                            let mut st = system.state.borrow_mut();
+                            let p = st.processes.get_mut(&pid).unwrap();
+                            p.set_disposition(sig, disp);
+                            if blocked {
+                                let _ = p.block_signals(SigmaskOp::Add, [sig]);
+                            }
+                        }
+                        let read = |system: &VirtualSystem| {
+                            let st = system.state.borrow();
+                            let p = &st.processes[&pid];
+                            (p.disposition(sig), format!("{:?}", p.blocked_signals()))
+                        };
+                        let before = read(&system);
+                        let result: Result<(), Errno> = match helper {
+                            "run_blocking" => system.run_blocking(sig, async || if fail { Err(Errno::EIO) } else { Ok(()) }).now_or_never().unwrap_or(Err(Errno::EINTR)),
+                            "run_unblocking" => system.run_unblocking(sig, async || if fail { Err(Errno::EIO) } else { Ok(()) }).now_or_never().unwrap_or(Err(Errno::EINTR)),
+                            // process group 999 does not exist: tcsetpgrp fails with EPERM
+                            "tcsetpgrp_with_block" => tcsetpgrp_with_block(&system, yash_env::io::Fd(0), if fail { yash_env::job::Pid(999) } else { pid }).now_or_never().unwrap_or(Err(Errno::EINTR)),
+                            _ => tcsetpgrp_without_block(&system, yash_env::io::Fd(0), if fail { yash_env::job::Pid(999) } else { pid }).now_or_never().unwrap_or(Err(Errno::EINTR)),
+                        };
+                        let after = read(&system);
+                        ctx.eval();
+                        ctx.count("D_helper_calls", 1);
+                        let _ = (Sigset::new as fn() -> <VirtualSystem as Sigmask>::Sigset, <VirtualSystem as Sigaction>::sigaction);
+                        if result.is_ok() == fail && helper.starts_with("run_") {
+                            ctx.violation("D:result-not-propagated", format!("{helper}({sname}) with a closure that {} returned {result:?}", if fail { "fails" } else { "succeeds" }));
+                        }
+                        if before != after {
+                            ctx.violation(
+                                format!("D:not-restored:{helper}"),
+                                format!(
+                                    "{helper} around an operation that {}: SIG{sname} disposition/mask before {before:?}, after {after:?} (initial disposition {disp:?}, initially blocked {blocked})",
+                                    if fail { "fails" } else { "succeeds" }
+                                ),
+                            );
+                        } else {
+                            ctx.nontrivial(crate::util::fnv_str(&format!("D{helper}{sname}{disp:?}{blocked}{fail}")));
+                        }
+                    }
+                }
+            }
+        }
+    }
 }
